@@ -13,6 +13,10 @@
 mod bits;
 mod components;
 mod docs;
+// exemplars* / correlate lie outside the text of C19 (len, records, search, count, lookup, offset_of,
+// retrieve, pack/unpack); the part that exercises them is kept for reference but is NOT registered,
+// so that a change confined to those calls can never raise a C19 alarm.
+#[allow(dead_code)]
 mod exemplars;
 mod mixes;
 mod textgen;
@@ -36,9 +40,7 @@ fn main() {
          SA+ISA+PSI combinations (labelled mix:...). document-big-alphabets: every symbol once plus repeats, 1500..9000 code points spread over \
          u32 or 65 534..72 000 distinct symbols (K on both sides of 65 536), non-trivial with >= 2 records and a needle that occurs. \
          index-components: texts up to 400 (900) symbols, sampling exponents 0..10, 31, 32, 63, 64, generated ISA sample positions, constrain / \
-         predecessor queries with whole, partial, empty and arbitrary target intervals; non-trivial with >= 8 symbols and >= 2 distinct. \
-         exemplars-correlate: 1..3 documents of marker+word tokens or uniform symbols over 2..120 code points, 1..3 marker pairs (also absent \
-         symbols), min_length 0..7, record selections all / none / generated; non-trivial with >= 2 expected exemplars and a count >= 2.",
+         predecessor queries with whole, partial, empty and arbitrary target intervals; non-trivial with >= 8 symbols and >= 2 distinct.",
     )
     .assume("Document::construct requires a non-empty text and record boundaries that start at 0, increase strictly and stay below the text length (check_record_boundaries); hence no empty records. Invalid lists and the empty text must be refused by both implementations.")
     .assume("Any u32 is a legal symbol (0 and u32::MAX included); the end marker is internal to the index.")
@@ -53,13 +55,11 @@ fn main() {
     .assume("Every SA / ISA / PSI combination of PsiDocument is held to the same Document contract as CompressedDocument (the crate's own tests/psi_with_*.rs instantiate five of them).")
     .assume("Building blocks: lookups are asserted for indices inside the structure only (0..=len for suffix array and psi; sampled positions for the sampled inverse suffix array, where other positions may answer Err but never a wrong value). Sampling exponents 0..10 must be accepted; 31 / 63 (the largest the u32 / usize constructors can shift by) and 32 / 64 may be refused but, if accepted, must answer correctly. Identical bytes from the usize / u32 / from-SA-and-ISA constructors are recorded as a label, not required.")
     .assume("Psi::constrain is called as its documentation allows: `range` is the whole suffix-array interval of one symbol (never the end marker's), `into` any closed interval, also empty and spanning several symbols; an empty answer is any pair with first > second. predecessor_sigma_symbols / predecessor_sigma_ranges are judged only when they return Ok(true) ('complete'), as sets, ignoring the end marker (symbol 0).")
-    .assume("exemplars* / correlate are undocumented. Asserted from any reading: count() is the number of occurrences of text() in the documents by a plain scan (for correlate: between the occurrences lying wholly in selected records and those touching a selected record), no text twice, counts never increase along the iteration (callers take(n) the most frequent). Asserted from the callers' use (analogize markers, benches/exemplars.rs) and the implementation's evident intent: the texts are exactly the strings that end with an end marker (or the needle) and are extended to the left until they start with the paired start marker (stop symbol) and have min_length symbols, extensions reaching the start of a document being dropped; the enumeration is complete for every string with a non-zero count (checked in full when the iterator ends, else above the last count seen). exemplars_from_needle is driven with a one-symbol stop; needles of >= 2 symbols that are not palindromes are excluded (suspected defect, counted as exclusion).")
     .pbt(docs::DocQueries)
     .pbt(docs::DocSerialize)
     .pbt(mixes::DocMixes)
     .pbt(mixes::BigAlphabets)
     .pbt(components::Components)
-    .pbt(exemplars::Exemplars)
     .pbt(bits::BitVectors(bits::Impl::Rrr))
     .pbt(bits::BitVectors(bits::Impl::CfRrr))
     .pbt(bits::BitVectors(bits::Impl::Sparse))
